@@ -16,6 +16,7 @@ import (
 	"net"
 	"os"
 	"reflect"
+	"strings"
 	"sync"
 	"time"
 
@@ -36,6 +37,71 @@ type luConf struct {
 	Insp  bool  `json:"inspector"`
 	Route int   `json:"route_target"` // 1 = upstream A, 2 = upstream B
 	Idle  int   `json:"idle_timeout"` // 0 unset, 1 = 400 ms
+	// the fields an in-place update does not apply to a running listener, as an index into luStatics
+	Static int `json:"static_fields"`
+	// a stream filter entry (a field an update DOES apply; only compared between the live config and the dump)
+	SF bool `json:"stream_filter,omitempty"`
+}
+
+// luStatic is one combination of the listener fields an in-place update leaves alone.
+type luStatic struct {
+	Bind  bool            `json:"bind_port"`
+	Type  v2.ListenerType `json:"type"`
+	Reuse bool            `json:"reuseport"`
+	ALog  bool            `json:"access_logs"`
+	Buf   int             `json:"default_read_buffer_size"`
+}
+
+var luStatics = []luStatic{
+	{true, v2.INGRESS, false, false, 0},
+	{false, v2.INGRESS, false, false, 0}, // only in update documents
+	{true, v2.EGRESS, false, false, 0},
+	{true, v2.INGRESS, true, false, 0},
+	{true, v2.INGRESS, false, true, 0},
+	{true, v2.INGRESS, false, false, 8192},
+	{false, v2.EGRESS, true, true, 8192}, // everything at once; only in update documents
+	{true, v2.EGRESS, true, true, 8192},
+}
+var luAddStatics = []int{0, 2, 3, 4, 5, 7}
+
+// staticToken maps the static fields of a listener config back to the index (99 = none of the generated combinations).
+func staticToken(l *v2.Listener) int {
+	got := luStatic{l.BindToPort, l.Type, l.ReusePort, len(l.AccessLogs) > 0, l.DefaultReadBufferSize}
+	for i, st := range luStatics {
+		if st == got {
+			return i
+		}
+	}
+	return 99
+}
+
+// configDiff compares the dumped listener config with the live listener's own config, field by field (every field of
+// v2.ListenerConfig, by its JSON form, and the resolved address).
+func configDiff(live, dump *v2.Listener) []string {
+	var out []string
+	lv, dv := reflect.ValueOf(live.ListenerConfig), reflect.ValueOf(dump.ListenerConfig)
+	for i := 0; i < lv.NumField(); i++ {
+		a, _ := json.Marshal(lv.Field(i).Interface())
+		b, _ := json.Marshal(dv.Field(i).Interface())
+		if string(a) != string(b) {
+			name := lv.Type().Field(i).Tag.Get("json")
+			if k := strings.Index(name, ","); k >= 0 {
+				name = name[:k]
+			}
+			out = append(out, name)
+		}
+	}
+	la, da := "", ""
+	if live.Addr != nil {
+		la = live.Addr.String()
+	}
+	if dump.Addr != nil {
+		da = dump.Addr.String()
+	}
+	if la != da {
+		out = append(out, "resolved-address")
+	}
+	return out
 }
 
 type luOp struct {
@@ -51,6 +117,7 @@ type luObs struct {
 	Plain       bool `json:"plaintext_served"`
 	Route       int  `json:"route_target"`
 	IdleClosed  bool `json:"idle_connection_closed"`
+	Static      int  `json:"static_fields_of_live_config"`
 	InDump      bool `json:"-"`
 	tlsRoute    int
 	plainRoute  int
@@ -58,7 +125,7 @@ type luObs struct {
 }
 
 func (o luObs) coq() string {
-	return fmt.Sprintf("(%s, %s, %d%%nat, %s, %d%%nat, %s)", CoqBool(o.Listening), CoqBool(o.TLS), o.Cert, CoqBool(o.Plain), o.Route, CoqBool(o.IdleClosed))
+	return fmt.Sprintf("(%s, %s, %d%%nat, %s, %d%%nat, %s, %d%%nat)", CoqBool(o.Listening), CoqBool(o.TLS), o.Cert, CoqBool(o.Plain), o.Route, CoqBool(o.IdleClosed), o.Static)
 }
 
 func (c *luConf) coq() string {
@@ -66,7 +133,7 @@ func (c *luConf) coq() string {
 	for _, t := range c.Ctxs {
 		cs = append(cs, fmt.Sprintf("%d%%nat", t))
 	}
-	return fmt.Sprintf("(mkLC %s %s %d%%nat %d%%nat)", CoqList(cs), CoqBool(c.Insp), c.Route, c.Idle)
+	return fmt.Sprintf("(mkLC %s %s %d%%nat %d%%nat %d%%nat)", CoqList(cs), CoqBool(c.Insp), c.Route, c.Idle, c.Static)
 }
 
 type c12Env struct {
@@ -74,6 +141,7 @@ type c12Env struct {
 	routers map[int]string
 	addr    map[string]string // listener name -> address
 	scale   int
+	dir     string
 }
 
 func (e *c12Env) listenerConfig(name, addr string, c *luConf) *v2.Listener {
@@ -82,8 +150,16 @@ func (e *c12Env) listenerConfig(name, addr string, c *luConf) *v2.Listener {
 	for _, t := range c.Ctxs {
 		tcs = append(tcs, v2.TLSConfig{Status: true, CertChain: e.leaf[t].certPEM, PrivateKey: e.leaf[t].keyPEM})
 	}
-	l := v2.Listener{ListenerConfig: v2.ListenerConfig{Name: name, AddrConfig: addr, BindToPort: true, Network: "tcp", Inspector: c.Insp,
+	st := luStatics[c.Static]
+	l := v2.Listener{ListenerConfig: v2.ListenerConfig{Name: name, AddrConfig: addr, BindToPort: st.Bind, Type: st.Type, ReusePort: st.Reuse,
+		DefaultReadBufferSize: st.Buf, Network: "tcp", Inspector: c.Insp,
 		FilterChains: []v2.FilterChain{{TLSContexts: tcs, FilterChainConfig: v2.FilterChainConfig{Filters: []v2.Filter{{Type: "proxy", Config: toMap(proxy)}}}}}}}
+	if st.ALog {
+		l.AccessLogs = []v2.AccessLog{{Path: e.dir + "/access-" + name + ".log", Format: "%start_time% %protocol%"}}
+	}
+	if c.SF {
+		l.StreamFilters = []v2.Filter{{Type: "vh-unregistered-stream-filter", Config: map[string]interface{}{"k": "v"}}}
+	}
 	if c.Idle == 1 {
 		l.ConnectionIdleTimeout = &api.DurationConfig{Duration: 400 * time.Millisecond}
 	}
@@ -192,7 +268,7 @@ func c12(args []string) int {
 	r := run.R
 	log.DefaultLogger.SetLogLevel(log.FATAL)
 	jit = startJitter()
-	run.Sum.Rule = "histories of 2-6 operations on 1-2 listener names from {AddOrUpdateListener(config), DeleteListener}; a config = TLS contexts in {none, A, B, A+B} x inspector x route target {A, B} x idle time-out {unset, 400 ms}; biased towards inspector flips / idle changes with otherwise unchanged config, same-name re-adds after a delete; after the history each listener is probed (TLS client, plaintext client, idle connection) and compared with the model and with a listener freshly built from the dumped config; non-trivial = the history updates an existing listener or deletes one; distinct by history."
+	run.Sum.Rule = "histories of 2-6 operations on 1-2 listener names from {AddOrUpdateListener(config), DeleteListener}; a config = TLS contexts in {none, A, B, A+B} x inspector x route target {A, B} x idle time-out {unset, 400 ms} x stream filter entry x static fields (bind_port, type, reuseport, access_logs, default_read_buffer_size: default, one changed at a time, all changed; half of the update documents differ from the running listener in them; bind_port=false only in update documents; network cannot differ: such an update is rejected); biased towards inspector flips / idle changes with otherwise unchanged config, same-name re-adds after a delete; after the history each listener is probed (TLS client, plaintext client, idle connection) and compared with the model and with a listener freshly built from the dumped config, and every field of the running listener's own config is compared with the dumped listener; non-trivial = the history updates an existing listener or deletes one; distinct by history."
 	dir, err := os.MkdirTemp("", "vh-c12-")
 	if err != nil {
 		panic(err)
@@ -202,7 +278,7 @@ func c12(args []string) int {
 	types.DefaultConnReadTimeout = 100 * time.Millisecond
 
 	right := newAuthority("right-ca")
-	env := &c12Env{leaf: map[int]*leaf{}, routers: map[int]string{1: "r-A", 2: "r-B"}, addr: map[string]string{}, scale: 1}
+	env := &c12Env{leaf: map[int]*leaf{}, routers: map[int]string{1: "r-A", 2: "r-B"}, addr: map[string]string{}, scale: 1, dir: dir}
 	env.leaf[1], _ = right.issue("lu-a.test", []string{"lu-a.test"}, leafOpt{})
 	env.leaf[2], _ = right.issue("lu-b.test", []string{"lu-b.test"}, leafOpt{})
 	upA, closeA := startUpstreamTagged("A")
@@ -220,7 +296,24 @@ func c12(args []string) int {
 	sh := run.NewShard(c12Header, "lu_case", "lu_mismatches listener_flags")
 	ctxSets := [][]int{{}, {1}, {2}, {1, 2}}
 	genConf := func() *luConf {
-		return &luConf{Ctxs: ctxSets[r.Intn(len(ctxSets))], Insp: r.Bool(), Route: 1 + r.Intn(2), Idle: r.Intn(2)}
+		c := &luConf{Ctxs: ctxSets[r.Intn(len(ctxSets))], Insp: r.Bool(), Route: 1 + r.Intn(2), Idle: r.Intn(2), SF: r.Pct(25)}
+		if r.Pct(50) {
+			c.Static = luAddStatics[r.Intn(len(luAddStatics))]
+		}
+		return c
+	}
+	// an update document: the applied fields of nc, static fields that (often) differ from the running listener's - one
+	// field at a time or all at once; the listener keeps its own static fields (old), which is what the mirror records
+	update := func(cur map[int]*luConf, n int, old *luConf, nc luConf) luOp {
+		doc := nc
+		doc.Static = old.Static
+		if r.Pct(50) {
+			doc.Static = r.Intn(len(luStatics))
+		}
+		merged := nc
+		merged.Static = old.Static
+		cur[n] = &merged
+		return luOp{Name: n, Conf: &doc}
 	}
 	nHist := run.N(10, 40)
 	type histRes struct {
@@ -229,6 +322,9 @@ func c12(args []string) int {
 		live  map[int]luObs
 		fresh map[int]luObs
 		dump  map[int]bool
+		dumpStatic map[int]int
+		liveStatic map[int]int
+		cfgDiff    map[int][]string
 		want  map[int]luObs // what the mirror of the model expects (used only to decide on a re-probe)
 	}
 	results := make([]*histRes, nHist)
@@ -253,20 +349,15 @@ func c12(args []string) int {
 			case k < 5: // inspector flips, the rest unchanged
 				nc := *c
 				nc.Insp = !c.Insp
-				cur[n] = &nc
-				ops = append(ops, luOp{Name: n, Conf: &nc})
+				ops = append(ops, update(cur, n, c, nc))
 			case k < 7: // idle time-out changes, the rest unchanged
 				nc := *c
 				nc.Idle = 1 - c.Idle
-				cur[n] = &nc
-				ops = append(ops, luOp{Name: n, Conf: &nc})
-			case k < 8: // identical update
-				nc := *c
-				ops = append(ops, luOp{Name: n, Conf: &nc})
+				ops = append(ops, update(cur, n, c, nc))
+			case k < 8: // identical applied fields
+				ops = append(ops, update(cur, n, c, *c))
 			default:
-				nc := genConf()
-				cur[n] = nc
-				ops = append(ops, luOp{Name: n, Conf: nc})
+				ops = append(ops, update(cur, n, c, *genConf()))
 			}
 		}
 		// the clause that is only visible right after an update: end a third of the histories with an inspector flip
@@ -275,15 +366,14 @@ func c12(args []string) int {
 				if len(c.Ctxs) > 0 {
 					nc := *c
 					nc.Insp = !c.Insp
-					cur[n] = &nc
-					ops = append(ops, luOp{Name: n, Conf: &nc})
+					ops = append(ops, update(cur, n, c, nc))
 					break
 				}
 			}
 		}
-		res := &histRes{ops: ops, live: map[int]luObs{}, fresh: map[int]luObs{}, dump: map[int]bool{}, want: map[int]luObs{}}
+		res := &histRes{ops: ops, live: map[int]luObs{}, fresh: map[int]luObs{}, dump: map[int]bool{}, want: map[int]luObs{}, dumpStatic: map[int]int{}, liveStatic: map[int]int{}, cfgDiff: map[int][]string{}}
 		for n, c := range cur { // mirror of the model with all switches on: live = fresh(last config)
-			w := luObs{Listening: true, TLS: len(c.Ctxs) > 0, Route: c.Route, IdleClosed: c.Idle == 1}
+			w := luObs{Listening: true, TLS: len(c.Ctxs) > 0, Route: c.Route, IdleClosed: c.Idle == 1, Static: c.Static}
 			if w.TLS {
 				w.Cert = c.Ctxs[0]
 			}
@@ -316,8 +406,22 @@ func c12(args []string) int {
 			name := fmt.Sprintf("vh-lu-%d-%d", hi, n)
 			dl, ok := dumpedListener(name)
 			res.dump[n] = ok
+			// the running listener's own config, compared with the dump field by field
+			var liveCfg *v2.Listener
+			if ln := adapter.FindListenerByName("", name); ln != nil {
+				c := *ln.Config()
+				liveCfg = &c
+				res.liveStatic[n] = staticToken(liveCfg)
+				if ln.IsBindToPort() != liveCfg.BindToPort {
+					res.liveStatic[n] = 98
+				}
+			}
 			if !ok {
 				continue
+			}
+			res.dumpStatic[n] = staticToken(&dl)
+			if liveCfg != nil {
+				res.cfgDiff[n] = configDiff(liveCfg, &dl)
 			}
 			fl := dl
 			fl.Name = name + "-fresh"
@@ -344,7 +448,11 @@ func c12(args []string) int {
 				// a probe that disagrees with the mirror or with the fresh listener is repeated with longer waits (the idle
 				// probe is wall-clock based); the last probe is the one reported
 				for _, scale := range []int{1, 3, 6} {
-					res.live[n] = env.observeListener(env.addr[name], scale)
+					lo := env.observeListener(env.addr[name], scale)
+					if lo.Listening {
+						lo.Static = res.liveStatic[n]
+					}
+					res.live[n] = lo
 					a, hasFresh := freshAddr[n]
 					if hasFresh {
 						res.fresh[n] = env.observeListener(a, scale)
@@ -378,7 +486,17 @@ func c12(args []string) int {
 			live := res.live[n]
 			rep := map[string]interface{}{"part": "listener-updates", "history": res.ops, "listener": n, "live": live, "in_dump": res.dump[n]}
 			run.Count(fmt.Sprintf("lu|%d|%v|%d", hi, coqOps, n), nontrivial, "listener-update-history", fmt.Sprintf("listener-update-ops=%d", len(res.ops)))
-			sh.Add(fmt.Sprintf("(%s, %d%%nat, %s)", CoqList(coqOps), n, live.coq()), rep)
+			dumped := "None"
+			if res.dump[n] {
+				dumped = fmt.Sprintf("(Some %d%%nat)", res.dumpStatic[n])
+				rep["static_fields_of_dumped_config"] = res.dumpStatic[n]
+			}
+			rep["static_field_combinations"] = luStatics
+			sh.Add(fmt.Sprintf("(%s, %d%%nat, %s, %s)", CoqList(coqOps), n, live.coq(), dumped), rep)
+			// finder: the dumped listener config is the running listener's own config, field by field
+			for _, f := range res.cfgDiff[n] {
+				run.Fail("c12:listener-dump-differs-from-live:"+f, fmt.Sprintf("after the update history the dumped config of the listener differs from the running listener's own config in %s", f), rep)
+			}
 			// finder: live = fresh(dump)
 			if !res.dump[n] {
 				if live.Listening {
@@ -390,6 +508,10 @@ func c12(args []string) int {
 			rep["fresh_from_dump"] = fresh
 			if !live.Listening {
 				run.Fail("c12:listener:live-differs-from-fresh-from-dump:deleted-listener-still-in-dump", "the listener was deleted (nothing listens on its address) but the dumped configuration still contains it: a fresh MOSN started from the dump serves it", rep)
+				continue
+			}
+			if !fresh.Listening {
+				run.Fail("c12:listener:live-differs-from-fresh-from-dump:bind-accept", "the live listener is bound and accepts connections, a listener freshly built from its dumped config does not", rep)
 				continue
 			}
 			for _, f := range []struct {
